@@ -205,7 +205,7 @@ def region_interval_at(prog, bi, w, target_bb):
     return min(los), max(his)
 
 
-@rule("C17", "R17.4", "StreamingPull control-message checks end in INVALID_ARGUMENT and precede every effect", floor=4)
+@rule("C17", "R17.4", "StreamingPull control-message checks end in INVALID_ARGUMENT and precede every effect", floor=1)
 def r17_4(prog, out):
     # the per-message handler: the local coroutine awaited by a stream body after stream_next
     m = model(prog)
@@ -221,7 +221,8 @@ def r17_4(prog, out):
             if await_class(prog, bi, a) == "local":
                 handlers.append(prog.body_of_type(bi.body, a.fut_ty))
     if not handlers:
-        raise CheckBroken("control-message handler of StreamingPull not found")
+        out.undecided("control-handler", "", "no per-message handler awaited by a stream body that reads the request stream")
+        return
     for hid in handlers:
         hi = prog.info(hid)
         ev = m.events(hid)
